@@ -260,7 +260,130 @@ fn glr_text(rng: &mut Rng, stmts: usize) -> Vec<u8> {
 }
 
 /// One adversarial history; every handle is dropped before returning. Returns an optional dump.
-fn history(kind: &str, lang_id: &str, b: &zoo::Built, seed: u64, thorough: bool, dump: &mut Option<String>) {
+/// Near-valid queries: valid patterns over the language's own node kinds and fields, mutated into
+/// every class the query compiler rejects (unknown node / field / capture, a terminal given
+/// children, impossible child / field / alternation branch, anchors at group edges, bad
+/// predicates, damaged syntax) plus the valid ones.  The allocator must balance after EVERY
+/// `Query::new`, failure or success (a successful query is also executed once).
+fn near_queries(b: &zoo::Built, seed: u64, info: &mut String) {
+    let lang = &b.language;
+    let mut rng = Rng::new(seed);
+    let mut named: Vec<String> = Vec::new();
+    let mut anon: Vec<String> = Vec::new();
+    for i in 0..lang.node_kind_count() {
+        if let Some(k) = lang.node_kind_for_id(i as u16) {
+            if !lang.node_kind_is_visible(i as u16) || k.is_empty() || k == "ERROR" {
+                continue;
+            }
+            if lang.node_kind_is_named(i as u16) {
+                if k.chars().all(|c| c.is_ascii_alphanumeric() || c == '_') && !named.contains(&k.to_string()) {
+                    named.push(k.to_string());
+                }
+            } else if !k.contains('"') && !k.contains('\\') && !anon.contains(&k.to_string()) {
+                anon.push(k.to_string());
+            }
+        }
+    }
+    if named.is_empty() {
+        return;
+    }
+    let mut fields: Vec<String> = (1..=lang.field_count()).filter_map(|i| lang.field_name_for_id(i as u16).map(|s| s.to_string())).collect();
+    fields.push("zz_no_such_field".into());
+    let text = {
+        let gg = gen::GrammarGen::new(&b.grammar_json, None);
+        let toks = gg.sentence(&mut rng, 30);
+        gg.render(&toks, &mut rng).0
+    };
+    let mut parser = Parser::new();
+    parser.set_language(lang).unwrap();
+    let tree = guarded_parse(&mut parser, &text, None, None);
+    let mut counts: std::collections::BTreeMap<String, usize> = std::collections::BTreeMap::new();
+    let mut first_leak: Option<(String, i64)> = None;
+    let n = 70;
+    for _ in 0..n {
+        let k = rng.pick(&named).clone();
+        let c = rng.pick(&named).clone();
+        let c2 = rng.pick(&named).clone();
+        let f = rng.pick(&fields).clone();
+        let a = if anon.is_empty() { "+".to_string() } else { rng.pick(&anon).clone() };
+        let mut q = match rng.below(30) {
+            0 => format!("({k})"),
+            1 | 2 | 3 => format!("({k} ({c}))"),
+            4 => format!("({k} ({c} ({c2})))"),
+            5 | 6 => format!("({k} {f}: ({c}))"),
+            7 => format!("({k} [({c}) ({c2})])"),
+            8 => format!("[({k}) ({c} ({c2}))] @x"),
+            9 => format!("({k} . ({c}))"),
+            10 => format!("({k} ({c}) .)"),
+            11 => format!("({k} ({c}) . ({c2}))"),
+            12 => format!("(({k}) . )"),
+            13 => format!("(. ({k}))"),
+            14 => format!("(({k}) @x (#eq? @x \"s\"))"),
+            15 => format!("(({k}) @x (#eq? @nope \"s\"))"),
+            16 => format!("(({k}) @x (#match? @x \"(\"))"),
+            17 => format!("(({k}) @x (#eq?))"),
+            18 => format!("(({k}) (#set! a) (#is-not? local))"),
+            19 => format!("({k} !{f})"),
+            20 => "(zz_no_such_node)".to_string(),
+            21 => format!("({k} (zz_no_such_node))"),
+            22 => format!("(\"{a}\" ({c}))"),
+            23 => format!("({k} \"{a}\" ({c})+ ({c2})?)"),
+            24 => format!("(_ ({c})) (({k} (_)* @y))"),
+            25 => format!("(ERROR ({c})) (MISSING {k}) ({k} (MISSING {c}))"),
+            26 => format!("({k}/{c})"),
+            27 => format!("({k} ({c})) ({c} ({k})) ({c2} ({c2}))"),
+            28 => format!("({k} ({c}) @a ({c2}) @b (#not-eq? @a @b))"),
+            _ => format!("(({k}) @x (#any-of? @x \"a\" \"b\"))"),
+        };
+        // damaged syntax
+        match rng.below(14) {
+            0 if q.len() > 2 => {
+                q.pop();
+            }
+            1 => q.push(']'),
+            2 => q.insert(0, '('),
+            3 => q = q.replace(':', " :: "),
+            _ => {}
+        }
+        let before = LIVE.load(Ordering::SeqCst);
+        let res = Query::new(lang, &q);
+        let key = match &res {
+            Ok(query) => {
+                if let Some(t) = &tree {
+                    let mut qc = QueryCursor::new();
+                    qc.set_match_limit(1 + rng.below(4) as u32);
+                    let mut it = qc.matches(query, t.root_node(), text.as_slice());
+                    let mut m = 0;
+                    while let Some(_x) = it.next() {
+                        m += 1;
+                        if m > 2000 {
+                            break;
+                        }
+                    }
+                }
+                "ok".to_string()
+            }
+            Err(e) => format!("{:?}", e.kind),
+        };
+        drop(res);
+        let delta = LIVE.load(Ordering::SeqCst) - before;
+        *counts.entry(key.clone()).or_insert(0) += 1;
+        if delta != 0 && first_leak.is_none() {
+            first_leak = Some((format!("{key}:{}", hex(q.as_bytes())), delta));
+        }
+    }
+    *info = format!(
+        " queries={n} qkinds={}{}",
+        counts.iter().map(|(k, v)| format!("{k}:{v}")).collect::<Vec<_>>().join(","),
+        first_leak.map(|(q, d)| format!(" leak={d}:{q}")).unwrap_or_default()
+    );
+}
+
+fn history(kind: &str, lang_id: &str, b: &zoo::Built, seed: u64, thorough: bool, dump: &mut Option<String>, info: &mut String) {
+    if kind == "nearquery" {
+        near_queries(b, seed, info);
+        return;
+    }
     let mut rng = Rng::new(seed);
     let mut parser = Parser::new();
     parser.set_language(&b.language).unwrap();
@@ -721,6 +844,11 @@ fn main() {
         for _ in 0..(if thorough { 600 } else { 120 }) {
             specs.push(format!("hist glr c07glr {}", rng.next() % 1_000_000_007));
         }
+        for lang in langs.iter().chain(["c07glr", "fx_external_tokens", "fx_reserved_words"].iter()) {
+            for _ in 0..(if thorough { 40 } else { 6 }) {
+                specs.push(format!("hist nearquery {lang} {}", rng.next() % 1_000_000_007));
+            }
+        }
         for kind in ["errors", "mix", "cancel"] {
             for _ in 0..(if thorough { 60 } else { 10 }) {
                 specs.push(format!("hist {kind} c07glr {}", rng.next() % 1_000_000_007));
@@ -756,10 +884,11 @@ fn main() {
                 let before = LIVE.load(Ordering::SeqCst);
                 let a0 = ALLOCS.load(Ordering::Relaxed);
                 let mut dump = None;
-                history(kind, lang, b, seed.parse().unwrap(), thorough, &mut dump);
+                let mut info = String::new();
+                history(kind, lang, b, seed.parse().unwrap(), thorough, &mut dump, &mut info);
                 let delta = LIVE.load(Ordering::SeqCst) - before;
                 let hasext = b.grammar_json.contains("\"externals\"") && !b.grammar_json.contains("\"externals\": []") && !b.grammar_json.contains("\"externals\":[]");
-                writeln!(out, "hist {cid} kind={kind} lang={lang} allocs={} live_delta={delta}", ALLOCS.load(Ordering::Relaxed) - a0).unwrap();
+                writeln!(out, "hist {cid} kind={kind} lang={lang} allocs={} live_delta={delta}{info}", ALLOCS.load(Ordering::Relaxed) - a0).unwrap();
                 if let Some(d) = dump {
                     writeln!(out, "dump {cid} hasext={}", hasext as u8).unwrap();
                     write!(out, "{d}").unwrap();
